@@ -28,6 +28,15 @@ package message
 //@   ensures-local result == nil ==> (n0 == 3 || n0 == 4)
 //@   ensures-local result == nil ==> (n0 == 4 ==> count("call:ReadString") == 1) && (n0 == 3 ==> count("call:ReadString") == 0)
 //@   ensures-local result == nil ==> count("call:ReadCid") == 1
+// what is decoded depends on the input only, never on what the receiver held before: a 3-field message
+// has no original peer, an empty address list / extra-data field leaves none behind
+//@   ghost nAddrs := 0
+//@   ghost nExtra := 0
+//@   at call CborReadHeaderBuf#2: after ghost nAddrs := result1
+//@   at call CborReadHeaderBuf#4: after ghost nExtra := result1
+//@   ensures-local result == nil && n0 == 3 ==> str(m.OrigPeer) == str("")
+//@   ensures-local result == nil && nAddrs == 0 ==> len(m.Addrs) == 0
+//@   ensures-local result == nil && nExtra == 0 ==> len(m.ExtraData) == 0
 
 // Encoder: header 132 and the text field iff OrigPeer is set, else 131; every
 // field is checked against its cap before it is written.
@@ -63,6 +72,7 @@ package message
 //@   requires m != nil
 //@   readonly
 //@   loop 1: invariant len(addrs) <= rangeindex + 1 && rangeindex < len(m.Addrs) && cap(addrs) >= len(m.Addrs) && len(addrs) <= cap(addrs)
+//@   loop 1: exhaustive
 //@   loop 1: iteration ghost n0 := len(addrs)
 //@   loop 1: iteration ghost failed := false
 //@   loop 1: iteration ghost unknown := false
